@@ -8,6 +8,10 @@ CLAIMED = {
    technique="Lean 4 proof: invariant + induction over operation histories of the pool models; differential correspondence model vs real Go code; abstract pool monitor on the implementation",
    text="Machine-checked theorems (uniqueness, in-range, idempotence, forward/reverse agreement) over executable Lean models of the pool implementations for all histories and geometries; model tied to /repo by executing generated operation sequences on the real code and replaying them on the model.",
    note="Trusted: Lean kernel + propext/Classical.choice/Quot.sound; the hand-written models (validated by the correspondence run); the Go harness and bngdrv; atomic-step abstraction for concurrent callers."),
+ "C04": dict(design="DESIGN.md §7 C04",
+   technique="Lean 4 proof: session invariant + induction over frame sequences of the PPPoE server model, ghost authentication flag justified by a separate theorem; differential correspondence against the real frame handlers; monitor on the real session table and emitted frames",
+   text="Machine-checked theorems service_requires_auth, ipcp_ack_requires_auth, foreign_mac_inert and ghost_set_only_by_accepted_pap over an executable Lean model of pkg/pppoe/server.go for all frame sequences, MACs and RADIUS outcomes; model tied to /repo by driving the real handlers on an in-memory socket (verif hook) with a scripted loopback RADIUS server.",
+   note="Trusted: Lean kernel + propext/Classical.choice/Quot.sound; the hand-written model (validated by the correspondence run); harness and bngdrv; well-formed frames only (malformed input is C09); RADIUS library."),
  "C05": dict(design="DESIGN.md §7 C05",
    technique="Lean 4 proof: counting invariant, pigeonhole, exhaustion-only-when-full, release-returns over the pool models; differential correspondence; abstract pool monitor on the implementation",
    text="Machine-checked theorems that Stats() figures equal the true holder count, exhaustion implies every unit is held, and a release returns the unit, for all histories; tied to /repo by differential execution; known finding KF-bitmap-wide excluded by an explicit clause.",
